@@ -67,6 +67,80 @@ fn scan_unsafe() -> Vec<String> {
     hits
 }
 
+/// `line` with the contents of string / char literals blanked out
+fn strip_literals(line: &str) -> String {
+    let mut out = String::with_capacity(line.len());
+    let mut it = line.chars().peekable();
+    while let Some(c) = it.next() {
+        if c == '"' {
+            out.push('"');
+            while let Some(d) = it.next() {
+                if d == '\\' {
+                    it.next();
+                } else if d == '"' {
+                    break;
+                }
+            }
+            out.push('"');
+        } else {
+            out.push(c);
+        }
+    }
+    out
+}
+
+/// The crate after macro expansion (nightly `-Zunpretty=expanded`): `#![forbid(unsafe_code)]` is not applied to
+/// what derive macros of other crates generate, so "contains none" is checked on the expanded text. The marker
+/// impls and the unreachable hint that the built-in derives of core expand to are the only accepted forms.
+fn scan_expanded(name: &str, flags: &[&str]) -> Result<(usize, Vec<String>), String> {
+    let target = format!("/verif/target/c18/expand-{}", name);
+    let out = Command::new("cargo")
+        .arg("+nightly")
+        .args(["rustc", "--lib"])
+        .args(flags)
+        .args(["--offline", "--target-dir", &target, "--", "-Zunpretty=expanded"])
+        .current_dir("/repo")
+        .env("CARGO_NET_OFFLINE", "true")
+        .env_remove("RUSTFLAGS")
+        .output()
+        .map_err(|e| format!("cannot run cargo +nightly: {}", e))?;
+    if !out.status.success() {
+        return Err(format!("macro expansion failed: {}", tail(&String::from_utf8_lossy(&out.stderr), 4)));
+    }
+    let text = String::from_utf8_lossy(&out.stdout).to_string();
+    let mut hits = Vec::new();
+    let mut tokens = 0;
+    for (n, line) in text.lines().enumerate() {
+        let code = strip_literals(line);
+        let bytes = code.as_bytes();
+        let mut i = 0;
+        let mut found = 0;
+        while let Some(p) = code[i..].find("unsafe") {
+            let a = i + p;
+            let b = a + 6;
+            let before = a == 0 || !(bytes[a - 1].is_ascii_alphanumeric() || bytes[a - 1] == b'_');
+            let after = b >= bytes.len() || !(bytes[b].is_ascii_alphanumeric() || bytes[b] == b'_');
+            if before && after {
+                found += 1;
+            }
+            i = b;
+        }
+        if found == 0 {
+            continue;
+        }
+        tokens += found;
+        let t = code.trim();
+        let accepted = found == 1 && (t.starts_with("unsafe impl ::core::") && t.ends_with("{ }") || t.contains("unsafe { ::core::intrinsics::unreachable() }"));
+        if !accepted {
+            hits.push(format!("expanded source line {}: {:.160}", n + 1, t));
+        }
+    }
+    if text.lines().count() < 1000 {
+        return Err(format!("macro expansion printed only {} lines", text.lines().count()));
+    }
+    Ok((tokens, hits))
+}
+
 fn main() {
     let run = Run::from_args("C18", "exploration");
     let prebuild = std::env::args().any(|a| a == "--prebuild");
@@ -136,6 +210,32 @@ fn main() {
     for h in &hits {
         sink.violation(format!("unsafe token {}", h.split(": ").next().unwrap_or("")), format!("`unsafe` appears in the sources: {}", h), replay.clone());
     }
+
+    // the same on the macro-expanded crate, in each buildable configuration
+    let expanded: Vec<(usize, Result<(usize, Vec<String>), String>)> = std::thread::scope(|s| {
+        let hs: Vec<_> = CFGS.iter().enumerate().filter(|(_, c)| c.must_build).map(|(i, c)| s.spawn(move || (i, scan_expanded(c.name, c.flags)))).collect();
+        hs.into_iter().map(|h| h.join().unwrap()).collect()
+    });
+    let mut expanded_tokens = 0;
+    for (i, r) in &expanded {
+        let c = &CFGS[*i];
+        sink.case(fnv(5, c.name.as_bytes()), true);
+        match r {
+            Ok((n, hits)) => {
+                expanded_tokens += n;
+                for h in hits {
+                    sink.violation(format!("expanded unsafe {} {}", c.name, h), format!("after macro expansion (feature set '{}') the crate contains unsafe code: {}", c.name, h), replay.clone());
+                }
+            }
+            Err(e) => {
+                // only a failure of the tool itself: a crate that does not build is reported by (1)
+                if builds.iter().any(|b| b.0 == *i && b.1) {
+                    machinery_failure("C18", &format!("{} (feature set '{}')", e, c.name));
+                }
+            }
+        }
+    }
+    let _ = expanded_tokens;
 
     // ---- (2) differential digests: the probe built against each buildable configuration
     let digests: Vec<(usize, bool, String)> = std::thread::scope(|s| {
@@ -231,7 +331,7 @@ fn main() {
     cov.insert("corpus_inputs_per_configuration".into(), json!(corpus_inputs));
     cov.insert("samples".into(), json!([{"configuration":"serialize-without-std","expected":"compile_error: features `serialize` cannot be enabled when using `no_std`"},{"configuration":"no-default-features","probe":"digest-probe over the catalogue corpus"}]));
     cov.insert("rule".into(), json!(
-        "all 4 feature sets {default, none, std+serialize, serialize-without-std} are built from /repo's working tree (the last must fail with the compile_error text); each buildable one is rebuilt with -F unsafe_code; src/ and build.rs are scanned for the `unsafe` token and the forbid attribute; a probe crate is built against each buildable configuration and prints a digest of (class, consumed, Debug text) per entry point over the catalogue corpus with single deviations (25 entry points, registries over all 65536 ids, 216 defragmenter histories): digests must be identical; a second probe asserts Send + Sync for 77 public types. Non-trivial: every configuration / digest comparison"));
+        "all 4 feature sets {default, none, std+serialize, serialize-without-std} are built from /repo's working tree (the last must fail with the compile_error text); each buildable one is rebuilt with -F unsafe_code; src/ and build.rs are scanned for the `unsafe` token and the forbid attribute, and so is the macro-expanded crate of each buildable configuration (nightly -Zunpretty=expanded; only the marker impls / unreachable hints of core's built-in derives are accepted); a probe crate is built against each buildable configuration and prints a digest of (class, consumed, Debug text) per entry point over the catalogue corpus with single deviations (25 entry points, registries over all 65536 ids, 216 defragmenter histories): digests must be identical; a second probe asserts Send + Sync for 77 public types. Non-trivial: every configuration / digest comparison"));
     let code = run.finish(&sink, cov, vec!["the corpus of the differential probe is the small-scope catalogue with single deviations, not every input".into()]);
     std::process::exit(code);
 }
